@@ -255,7 +255,7 @@ class C12(TalCheck):
             "single-file templates from the seeded tree generator, 85% of "
             "them laid out over several lines with indentation and "
             "non-ASCII text before expressions; per template every probe "
-            "site reached in the fault-free run x each of 21 exception "
+            "site reached in the fault-free run x each of 28 exception "
             "classes (first invocation; last invocation for repeated "
             "sites) as single-fault plans - enumerated, not sampled - plus "
             "up to 20 two-fault plans with an earlier recovered failure. "
